@@ -5,6 +5,9 @@ import H263V.Model.Header
 import H263V.Spec.HeaderSpec
 import H263V.Lemmas.ParseLemmas
 import H263V.Lemmas.SorensonRoundTrip
+import H263V.Lemmas.BaseRoundTrip
+import H263V.Lemmas.SorensonPicture
+import H263V.Lemmas.Total
 namespace H263V.Thm.C06
 open H263V H263V.Spec.Vlc H263V.Spec.Syntax H263V.Spec.HeaderSpec
 
@@ -27,5 +30,36 @@ theorem parse_encode_sorenson (h : SorensonHdr) (hv : Lemmas.SorensonRoundTrip.V
     Header.decodePicture { sorenson := true, scalability := scal } prev ⟨encodeSorensonHdr h ++ rest, pos⟩ =
       .ok (some (sorensonPicture h), ⟨rest, pos + (encodeSorensonHdr h).length⟩) :=
   Lemmas.SorensonRoundTrip.round_trip h hv scal prev rest pos
+
+
+/-- Baseline H.263 headers (PTYPE, no PLUSPTYPE): for every temporal reference, every combination of the three PTYPE flag bits,
+every source format 1..6, INTRA / INTER (bit 9: 0 = INTRA, 1 = INTER), the UMV / SAC / AP / PB bits, every quantizer, CPM with
+every PSBI, TRB / DBQUANT of PB frames and any list of extra-information bytes, parsing the encoded header yields exactly the
+specified record and consumes exactly the header's bits, whatever follows and at any alignment (standard mode without the
+scalability option; a previous header, if given, of the same source format). -/
+theorem parse_encode_baseline (h : BaseHdr) (hv : Lemmas.BaseRoundTrip.Valid h) (prev : Option PicHdr)
+    (hprev : ∀ p, prev = some p → p.format = some (stdFmt h.srcFmt)) (rest : Bits) (pos : Nat) :
+    Header.decodePicture { sorenson := false, scalability := false } prev ⟨encodeBaseHdr h ++ rest, pos⟩ =
+      .ok (some (basePicture h), ⟨rest, pos + (encodeBaseHdr h).length⟩) :=
+  Lemmas.BaseRoundTrip.round_trip h hv prev hprev rest pos
+
+/-- Up to seven zero stuffing bits in front of the start code, within the alignment window of the current position, are
+skipped: the header parses exactly as it does at the start code (any header flavour). -/
+theorem stuffing_before_start_code (o : DecOpts) (prev : Option PicHdr) (k : Nat) (x : Bits) (pos : Nat) (hk : k ≤ 7)
+    (hwin : k ≤ realignmentBits ⟨Lemmas.SorensonPicture.zeros k ++ (startCode ++ x), pos⟩ + 1) (hdr : PicHdr) (c' : Cur)
+    (h : Header.decodePicture o prev ⟨startCode ++ x, pos + k⟩ = .ok (some hdr, c')) :
+    Header.decodePicture o prev ⟨Lemmas.SorensonPicture.zeros k ++ (startCode ++ x), pos⟩ = .ok (some hdr, c') :=
+  Lemmas.SorensonPicture.decodePicture_zeros o prev k x pos hk hwin hdr c' h
+
+/-- Every header the parser accepts — any flavour, any input bits — carries a quantizer below 32 and a temporal reference
+below 1024 (8 bits, plus the two ETR bits with a custom clock); the parser itself never panics or hangs. -/
+theorem parsed_header_ranges (d : DecOpts) (prev : Option PicHdr) (c : Cur) (hdr : PicHdr) (c' : Cur)
+    (h : Header.decodePicture d prev c = .ok (some hdr, c')) : hdr.quantizer < 32 ∧ hdr.tr < 1024 :=
+  ((Lemmas.Total.decodePicture_sat d prev).ok_len c (some hdr) c' h).2 hdr rfl
+
+/-- A decoded picture reports the header it was decoded from and, when the header signals one, its format. -/
+theorem decoded_picture_reports_header (s : State.State) (hdr : PicHdr) (mbs : List MbD) (r : PicHdr × Gather.DecPic)
+    (h : Lemmas.PictureRoundTrip.semCore s hdr mbs = .ok r) : r.2.hdr = hdr ∧ ∀ f, hdr.format = some f → r.2.fmt = f :=
+  ⟨(Lemmas.SorensonPicture.semCore_hdr s hdr mbs r h).2.1, (Lemmas.SorensonPicture.semCore_hdr s hdr mbs r h).2.2⟩
 
 end H263V.Thm.C06
